@@ -696,15 +696,17 @@ add({"name": "write_span", "file": "dfs/cmd_extract_unused.cc",
      "dropped": ["diagnostic texts", "the output file name (see C12)"]})
 
 add({"name": "extract_unused_spans", "file": "dfs/cmd_extract_unused.cc",
-     "anchor": r"int begin = -1;\s*unsigned short count = 0;", "region_end": r"ostream_flag_saver restore_cout_flags\(std::cout\);",
+     "anchor": r"int begin = -1;\s*unsigned short count = 0;", "region_end": r"private:\s*bool write_span\(DFS::AbstractDrive \*drive,",
      "sig": "static bool extract_unused_spans(struct DataAccess *drive, sector_count_type last_sec, unsigned short *count_out)",
-     "region_epilogue": "*count_out = count; return true;\n",
      "rules": [(r"DFS::sector_count_type sec = 0;", "sector_count_type sec = 0;", 1),
                (r"std::optional<std::string> name = occupied_by->at\(sec\);", "struct opt_owner name = occupied_at(sec);", 1),
                (r"if \(name\)", "if (name.has)", 1),
-               (r"write_span\(drive, dest_dir, ([^;]*?)\)\)", r"write_span_v(drive, \1))", 1),
-               (r"(for \(sector_count_type sec = 0; sec <= last_sec; \+\+sec\))", r"\1 SPANS_LOOP_CONTRACT", 1)],
-     "dropped": ["the destination directory argument of write_span (see C12)"]})
+               (r"write_span\(drive, dest_dir, ((?:[^();]|\([^()]*\))*)\)", r"write_span_v(drive, \1)", 1),
+               (r"(for \(sector_count_type sec = 0; sec <= last_sec; \+\+sec\))", r"\1 SPANS_LOOP_CONTRACT", 1),
+               (r"ostream_flag_saver restore_cout_flags\(std::cout\);", "/* ostream_flag_saver dropped */", 1),
+               (r"std::cout <<(?:[^;\"]|\"(?:[^\"\\]|\\.)*\")*;", "*count_out = count;   /* the summary line: the number of files written is kept, the text dropped */", 1),
+               (r"\}\s*$", "", 1)],                       # the closing brace of invoke() itself
+     "dropped": ["the destination directory argument of write_span (see C12)", "the text of the summary line"]})
 
 # ---- cmd_extract_files.cc (C02: the .inf line; C11: its stream is tested after close) -----------------------------------
 add({"name": "create_inf_file", "file": "dfs/cmd_extract_files.cc",
@@ -781,11 +783,47 @@ add({"name": "make_name", "file": "dfs/cmd_extract_unused.cc",
      "pre": "#define ss (&ss_obj)\n", "post": "#undef ss\n",
      "rules": [(r"assert\(dest_dir\.back\(\) == '/'\);", "VERIF_ASSERT(cstr_back(&dest_dir) == '/');", 1),
                (r"std::ostringstream ss;", "os_init(&ss_obj);", 1),
-               (r"ss << dest_dir", "ss << CSTR(dest_dir)", 1),
+               (r"<< dest_dir\b", "<< CSTR(dest_dir)", ">=1"),
                ("OSTREAM_CHAIN", "ss", 1),
                (r"return ss\.str\(\);", "return;  /* the assembled string is the sequence of events */", 1)]})
 
 # ---- main.cc (C11 dfs half): the command-invocation tail of main ---------------------------------------------------
+# ---- cmd_show_titles.cc (C07: a non-zero status is accompanied by a diagnostic): the per-drive loop of show-titles -----------
+add({"name": "show_titles_loop", "file": "dfs/cmd_show_titles.cc",
+     "anchor": r"bool ok = true;\s*for \(DFS::SurfaceSelector surface : todo\)", "region_end": r"\};\s*REGISTER_COMMAND\(CommandShowTitles\);",
+     "sig": "static bool show_titles_loop(size_t todo_n)",
+     "rules": [(r"for \(DFS::SurfaceSelector surface : todo\)", "for (size_t ti_ = 0; ti_ < todo_n; ++ti_) SHOW_TITLES_LOOP_CONTRACT", 1),
+               (r"show_title\(storage, surface, error\)", "show_title_model(ti_)", 1),
+               (r"std::cerr << error <<(?:[^;\"]|\"(?:[^\"\\]|\\.)*\")*;", "error_report();", ">=0"),
+               (r"\bfail\(\);", "error_report();", ">=0"),
+               (r"(?:DFS::)?failed_to_mount_surface\(std::cerr, surface, error\);", "error_report();", ">=0"),
+               (r"error\.empty\(\)", "(!ST.error_set)", ">=0"), (r"error\.clear\(\);", "ST.error_set = 0;", ">=0"),
+               (r"\}\s*$", "", 1)],
+     "dropped": ["the text of the diagnostic (the error string show_title / mount_fs produced)"]})
+
+# ---- commands.cc (C01: name lookup -> mount -> body): body_command, the shared back end of type / list / dump -----------------
+add({"name": "body_command", "file": "dfs/commands.cc",
+     "anchor": r"bool body_command\(const StorageConfiguration& storage, const DFSContext& ctx,\s*const std::vector<std::string>& args,\s*file_body_logic logic\)",
+     "sig": "static bool body_command(const struct StorageM *storage, const struct CtxM *ctx, size_t args_n)",
+     "forbid": [r"\bMV_\b", r"\bMF_\b", r"->\w+\(\)"],
+     "rules": [(r"args\.size\(\)", "args_n", ">=1"),
+               (r"failed_to_mount_volume\(std::cerr, [^;]*\);", "g_diag++;  /* diagnostic text dropped */", 1),
+               (r"std::cerr <<(?:[^;\"]|\"(?:[^\"\\]|\\.)*\")*;", "g_diag++;  /* diagnostic text dropped */", ">=1"),
+               (r"ParsedFileName name;", "struct PFN name;", 1), (r"std::string error;", "", 1),
+               (r"parse_filename\(ctx, args\[(\w+)\], &name, error\)", r"parse_filename_model(ctx, \1, &name)", 1),
+               (r"auto mounted = storage\.mount\(([^;]*), error\);", r"const struct MountedM *mounted = storage_mount_model(storage, \1);", 1),
+               (r"mounted->volume\(\)", "MV_", ">=0"), (r"mounted->file_system\(\)", "MF_", ">=0"),
+               (r"MV_->(\w+)\(\)", r"Volume_\1(Mounted_volume(mounted))", ">=0"), (r"MF_->(\w+)\(\)", r"FileSystem_\1(Mounted_file_system(mounted))", ">=0"),
+               (r"const auto& root\(([^;]*)\);", r"const struct CatalogR *root = \1;", 1),
+               (r"const std::optional<CatalogEntry> entry = root\.find_catalog_entry_for_name\(name\);", "struct opt_entry_ entry = find_entry_model(root, &name);", 1),
+               (r"if \(!entry\)", "if (!entry.has)", 1),
+               (r"std::vector<DFS::byte> body;", "", 1),
+               (r"DataAccess& vol_access\(([^;]*)\);", r"struct DataAccess *vol_access = \1;", 1),
+               (r"read_file_body\(\*entry, vol_access, &body\);", "read_file_body_model(entry.val, vol_access);", 1),
+               (r"const std::vector<std::string> tail\(args\.begin\(\) \+ (\w+), args\.end\(\)\);", r"const size_t tail_from = \1;", 1),
+               (r"return logic\(body\.data\(\), body\.data\(\) \+ body\.size\(\), tail\);", "return logic_model(tail_from);", 1)],
+     "dropped": ["diagnostic texts", "the byte vector (the body is what read_file_body delivered: recording model)"]})
+
 # ---- main.cc (C16 "option loop order in main"): the option table and one step of the option loop -------------------------
 add({"name": "dfs_opt_table", "file": "dfs/main.cc", "anchor": r"enum OptSignifier\s*\{", "region_end": r"\n\s*bool check_consistency\(\)",
      "toplevel": True, "sig": "", "rules": []})
@@ -942,6 +980,21 @@ add({"name": "gz_open_input", "file": "dfs/img_gzfile.cc", "anchor": r"FILE \*f 
      "rules": [(r"^FILE \*f = fopen\(name\.c_str\(\),\s*(.*)\)$", r"fopen_model(\1);", 1)]})
 
 # ---- fsp.cc (C15: `type`/`list`/`dump` find a file by :drive.dir.name): the directory/name split of parse_filename --------
+# parse_filename, first part: the defaults from the context and the optional `:drive.` prefix (C15: "find a file by
+# :drive.dir.name with the same defaults")
+add({"name": "fsp_drive_prefix", "file": "dfs/fsp.cc",
+     "anchor": r"std::string name\(fsp\);", "region_end": r"// name is now an optional directory part|if \(name\.size\(\) [<>=!]+ \w+\)\s*\{\s*if \(name\[1\]",
+     "sig": "static bool fsp_drive_prefix(const struct FspCtx *ctx, struct cstr fsp, struct FspResult *result_, struct cstr *name_out)",
+     "region_epilogue": "*name_out = name; return true;   /* on to the directory/name split */\n",
+     "rules": [(r"std::string name\(fsp\);", "struct cstr name = fsp;", 1),
+               (r"ParsedFileName result;", "/* result: the caller's object */", 1),
+               (r"\bresult\.", "result_->", ">=2"), (r"\bctx\.", "ctx->", ">=2"),
+               (r"\bfsp\[(\w+)\]", r"CSTR_AT(&fsp, \1)", ">=1"),
+               (r"std::optional<DFS::VolumeSelector> got = DFS::VolumeSelector::parse\(fsp\.substr\((\w+)\), &end, error\);", r"struct opt_vol got = volume_parse_model(fsp, \1, &end);", 1),
+               (r"if \(!got\)", "if (!got.has)", 1), (r"\*got\b", "got.val", 1),
+               (r"std::ostringstream ss;(?:[^;\"]|\"(?:[^\"\\]|\\.)*\")*;\s*error = ss\.str\(\);", "error_set();", ">=0"),
+               (r"name = name\.substr\((\w+)\);", r"name = cstr_substr(name, (unsigned)(\1));", 1)],
+     "dropped": ["diagnostic text"]})
 add({"name": "parse_dir_and_name", "file": "dfs/fsp.cc",
      "anchor": r"if \(name\.size\(\) [<>=!]+ \w+\)\s*\{\s*if \(name\[1\] == '\.'\)", "region_end": r"std::swap\(result, \*p\);",
      "sig": "static void parse_dir_and_name(struct cstr name, char *result_dir, struct cstr *result_name)",
@@ -1363,9 +1416,10 @@ add({"name": "HfeAdapter_read_block", "file": "dfs/img_hfe.cc",
      "anchor": r"std::optional<DFS::SectorBuffer> read_block\(unsigned long lba\) override",
      "sig": "static opt_SectorBuffer HfeAdapter_read_block(struct FluxAdapter *self, unsigned long lba)",
      "pre": "#define geom_ (self->geom_)\n#define side_ (self->side_)\n#define FLUXSEC(s) (&self->sectors_[s])\n", "post": "#undef geom_\n#undef side_\n#undef FLUXSEC\n",
-     "rules": [(NULLOPT_SB[0], NULLOPT_SB[1], 2), (r"sectors_\.size\(\)", "self->sectors_n", 1),
+     "rules": [(NULLOPT_SB[0], NULLOPT_SB[1], ">=1"), (r"sectors_\.size\(\)", "self->sectors_n", ">=0"),
                (r"SectorAddress addr;", "struct SectorAddress addr;", 1),
-               (r"const auto sectors_per_side\b", "const unsigned long sectors_per_side", 1),
+               (r"const auto sectors_per_side\b", "const unsigned long sectors_per_side", ">=0"),
+               (r"static_cast<unsigned long>\(", "(unsigned long)(", ">=0"),
                (r"static_cast<unsigned char>\(", "(unsigned char)(", ">=0"),
                (r"std::vector<Sector>::const_iterator it = find_sector\(addr\);", "size_t it = HfeAdapter_find_sector(self, &addr);", 1),
                (r"it != sectors_\.cend\(\)", "it != self->sectors_n", 1),
